@@ -437,7 +437,7 @@ where
 				let mut runner = TestRunner::new(cfg);
 				let failed = AtomicBool::new(false);
 				let last_fail: Mutex<Option<Fail>> = Mutex::new(None);
-				let strat = proptest::collection::vec(any::<u8>(), 96..=dna_max);
+				let strat = proptest::collection::vec(any::<u8>(), dna_max.min(96)..=dna_max);
 				let r = runner.run(&strat, |dna| {
 					let counting = !failed.load(Ordering::Relaxed);
 					if counting && ctx.stop.load(Ordering::Relaxed) {
